@@ -1,0 +1,27 @@
+//go:build verif
+// +build verif
+
+package cache
+
+import "sync/atomic"
+
+// Yield points of the cache (build tag "verif").
+const (
+	VerifYGetBeforePromote = 1 // Cache.Get: node found/created, cacher not yet told
+)
+
+var verifH atomic.Value // func(int)
+
+// SetVerifYield installs the yield callback (nil removes it).
+func SetVerifYield(f func(p int)) {
+	if f == nil {
+		f = func(int) {}
+	}
+	verifH.Store(f)
+}
+
+func verifYield(p int) {
+	if f, _ := verifH.Load().(func(int)); f != nil {
+		f(p)
+	}
+}
